@@ -495,8 +495,15 @@ where
         if let Some(ref mut data) = self.writing {
             while data.has_remaining() {
                 let stream = Pin::new(&mut self.stream);
-                let written = ready!(stream.poll_write(cx, data.chunk()))
-                    .map_err(convert_write_error_to_stream_error)?;
+                let written = match ready!(stream.poll_write(cx, data.chunk())) {
+                    Ok(written) => written,
+                    Err(err) => {
+                        // this write is over: a later one must meet the stream's
+                        // own error again, not be refused as a misuse of the traits
+                        self.writing = None;
+                        return Poll::Ready(Err(convert_write_error_to_stream_error(err)));
+                    }
+                };
                 data.advance(written);
             }
         }
